@@ -76,11 +76,8 @@ func c02Arith(c *hx.Ctx, r *hx.RNG, l hx.Limits) {
 	if c.Verbose {
 		fmt.Println("case:", k.desc(true))
 	}
-	kf := ""
-	if fmaProductOutOfRange(k) {
-		kf = "fma_product_exponent_out_of_range"
-	}
 	got, pi := k.exec()
+	kf := fmaKnownFinding(k, &got, pi) // D15, and only when the outcome is the one the finding describes
 	cls := k.op + "/" + k.class
 	if pi != nil {
 		if pi.Class == "mk" || pi.Class == "cost" {
